@@ -193,6 +193,13 @@ def _more_than_one(path):
     return (o == '>' and c == -1) or (o == '>=' and c == -2)
 
 
+def _negated(path):
+    m = re.fullmatch(r'\((.+) (>|>=|<|<=) (.+)\)', path)
+    if not m:
+        return ''
+    return '(%s %s %s)' % (m.group(1), {'>': '<=', '>=': '<', '<': '>=', '<=': '>'}[m.group(2)], m.group(3))
+
+
 def drain(ctx, db):
     rid = ctx.rule('C14.drain', 'PATHS+ORDER', 'the controller\'s destructor waits for every outstanding asynchronous source: a loop whose only exit is the test that at most one source is counted, each '
                    'iteration blocks on one completion and decrements the count by one; the controller is declared after the queue and the callbacks (destroyed before them)', floor=2)
@@ -208,14 +215,14 @@ def drain(ctx, db):
                 for it in tr:
                     if it.k == 'branch':
                         nb += 1
-                        if not _more_than_one(it.path or ''):
+                        if not (_more_than_one(it.path or '') or _more_than_one(_negated(it.path or ''))):      # while (count > 1) ... / if (count <= 1) break;
                             bad = bad or 'the drain loop has an exit that does not depend on the number of outstanding sources only (%s): a pending source may resume into a destroyed aggregate' % (it.path or it.get('opath'))
             if nb == 0:
                 bad = 'the destructor does not test the number of outstanding sources'
 
         if not bad:
             for tr in [t for t in T.traces(f) if live(t)]:
-                loops = [i for i, it in enumerate(tr) if it.k == 'branch' and it.term in ('WhileStmt', 'ForStmt', 'DoStmt')]
+                loops = [i for i, it in enumerate(tr) if it.k == 'branch' and (it.term in ('WhileStmt', 'ForStmt', 'DoStmt') or _more_than_one(it.path or '') or _more_than_one(_negated(it.path or '')))]
                 for a in range(len(loops) - 1):
                     seg = tr[loops[a]:loops[a + 1]]
                     pops = sum(1 for it in seg if it.k == 'call' and norm(it.get('callee')) == 'cocls::queue::pop')
